@@ -119,7 +119,7 @@ func init() {
 			{
 				// a subscription that sat idle past its expiration TTL but was not swept
 				// yet is still attached: a publish in that window must reach it
-				ID: "C01/idle-past-ttl", Prop: "C01", Depth: d(tier, 5, 6), Drain: true,
+				ID: "C01/idle-past-ttl", Prop: "C01", Depth: d(tier, 5, 6), Drain: true, PastForeign: true,
 				Cfg: model.Cfg{Topics: []string{"T0"}, Subs: []model.SubCfg{
 					{Name: "S0", Topic: "T0", TTL: 2 * time.Minute, Retention: 10 * time.Minute},
 					// (a TTL LONGER than the retention: the two durations must not be confused)
@@ -128,6 +128,8 @@ func init() {
 				Alphabet: []model.Op{
 					pub1("T0", "", 0),
 					pull("S0", 10), pull("S1", 10), ack("S0", "all"),
+					// a long poll the client gives up on is use of the subscription too
+					pullAbandon("S0"),
 					tick("ttl-"), tick("ttl+"), tick("lease+"), tick("ret+"),
 					job("delete-expired-subscriptions", 0, 100), mkSub("S0"),
 				},
@@ -255,6 +257,18 @@ func init() {
 				},
 			},
 			{
+				// one StreamingPull request that carries acks AND deadline changes
+				ID: "C03/stream-requests-combined", Prop: "C03", Depth: d(tier, 5, 6), Drain: true,
+				Cfg: model.Cfg{Topics: []string{"T0"}, Subs: []model.SubCfg{
+					{Name: "S0", Topic: "T0"},
+				}},
+				Prelude: []model.Op{pubN("T0", "", "")},
+				Alphabet: []model.Op{
+					stream("S0", "later-ack+extend", "all"), stream("S0", "later-ack+nack", "all"), stream("S0", "plain", ""),
+					pull("S0", 1), pull("S0", 10), pub1("T0", "", 0), tick("lease+"),
+				},
+			},
+			{
 				// one stream that lives across a Seek: what it delivered and acknowledged
 				// before the seek is delivered again (rightly) and acknowledged again on
 				// the SAME stream - the second ack is as final as the first
@@ -338,6 +352,20 @@ func init() {
 				},
 			})
 		}
+		// deadline changes sent as SEVERAL requests on one stream (the wrapper that turns
+		// gRPC requests into streamer requests lives as long as the stream)
+		out = append(out, &hist.Scenario{
+			ID: "C04/stream-deadline-requests", Prop: "C04", Depth: d(tier, 5, 6), Drain: true,
+			Cfg: model.Cfg{Topics: []string{"T0"}, Subs: []model.SubCfg{
+				{Name: "S0", Topic: "T0", MinBackoff: 10 * time.Second, MaxBackoff: 60 * time.Second, Retention: 100 * 24 * time.Hour},
+			}},
+			Prelude: []model.Op{pubN("T0", "", "")},
+			Alphabet: []model.Op{
+				pull("S0", 1), pull("S0", 10),
+				stream("S0", "later-extend-then-nack", "all"), stream("S0", "later-extend", "all"), stream("S0", "later-nack", "oldest"), stream("S0", "plain", ""),
+				tick("lease-"), tick("lease+"),
+			},
+		})
 		// a policy updated to an explicit zero on one side: zero is "not configured"
 		out = append(out, &hist.Scenario{
 			ID: "C04/explicit-zero-backoff", Prop: "C04", Depth: d(tier, 5, 6), Drain: true,
@@ -401,6 +429,8 @@ func init() {
 				nack("S0", "oldest"), modack("S0", "all", 0), ack("S0", "oldest"),
 				sweep(), tick("lease+"), tick("lease-"),
 				nack("S0", "stale"), modack("S0", "stale", 0),
+				// one request naming the same id twice
+				nack("S0", "dup"),
 			}
 			return append(base, extra...)
 		}
@@ -540,6 +570,8 @@ func init() {
 				Prelude: []model.Op{pub1("T0", "", 0), pull("S0", 10), snap("S0", "N0"), ack("S0", "all"), tick("+30m")},
 				Alphabet: []model.Op{
 					seekT("S0", "before-all"), seekS("S0", "N0"),
+					// a target that lies further back than the retention, but behind a revived message
+					seekT("S0", "after-0"),
 					tick("+30m"), tick("lease+"),
 					pull("S0", 10), ack("S0", "all"), pub1("T0", "", 0),
 					job("prune-expired-deliveries", 0, 100),
@@ -613,6 +645,8 @@ func init() {
 					// ... and one the SERVER ends empty after its full wait: the idle clock
 					// restarts when the pull ENDS
 					pullW("S1", 10),
+					// ... and a StreamingPull that gets nothing and is closed again
+					stream("S1", "plain", ""),
 					job("delete-expired-subscriptions", 0, 100),
 					tick("ret+"), tick("ttl-"), tick("ttl+"),
 				},
